@@ -265,7 +265,23 @@ EXPLAINS = {
     "pct_hex_names": {"dup_id", "ref_target", "backref_multi", "ref_without_backref", "numbering", "backref_form"},
     "refnum_suffix_names": {"dup_id", "backref_multi", "ref_without_backref"},
     "heading_id_vs_footnote_id": {"dup_id", "ref_target"},
+    "ref_in_image_alt": {"dangling_backref", "first_reference_order", "html_vs_tree", "ref_without_backref"},
 }
+
+
+def ref_under_image(tree_line):
+    """a FootnoteReference with an Image ancestor in the dumped tree (alt text is rendered as plain text)"""
+    t = tree_line.split()
+    stack = []
+    for i, x in enumerate(t):
+        if x == "(":
+            k = t[i + 1]
+            if k == "FootnoteReference" and "Image" in stack:
+                return True
+            stack.append(k)
+        elif x == ")" and stack:
+            stack.pop()
+    return False
 
 
 def skeleton_parse(s):
@@ -290,7 +306,7 @@ def main(tier):
     big = tier != "quick"
 
     # ====================================================================== A. anchors
-    seqs = gen_anchor_seqs(rng, 20000 if big else 4000)
+    seqs = gen_anchor_seqs(rng, 40000 if big else 10000)
     lines = ["anchorize " + " ".join(hx(h) for h in s) for s in seqs]
     impl = vlib.run_lines(vh, lines)
     model = vlib.run_lines(drv, lines)
@@ -332,7 +348,7 @@ def main(tier):
     c.cov["spec_checks"]["anchors: ids of one Anchorizer pairwise distinct (ASCII + Unicode header sequences)"] = len(seqs) + len(useqs)
 
     # ====================================================================== B/C. structured footnote documents
-    docs = list(WITNESS_DOCS) + [gen_struct_doc(rng) for _ in range(12000 if big else 2500)]
+    docs = list(WITNESS_DOCS) + [gen_struct_doc(rng) for _ in range(40000 if big else 8000)]
     mds = ["\n".join(md_lines(d)) + "\n" for d in docs]
     pres = [f"( Document 0 0 0 0 {pre_tokens(d)} )" for d in docs]
     # label table through the real normalize_label (both casings), closed under `preserve`
@@ -457,7 +473,7 @@ def main(tier):
 
     # ====================================================================== C. docgen documents: real tree invariants + HTML
     gdocs = []
-    for _ in range(12000 if big else 2500):
+    for _ in range(40000 if big else 8000):
         r = rng.random()
         dd = docgen.gen_doc(rng) if r < 0.8 else docgen.gen_malformed(rng)
         if rng.random() < 0.6:
@@ -477,6 +493,8 @@ def main(tier):
         except UnicodeEncodeError:
             continue
         gdocs.append(dd)
+    # fixed witnesses first: reference inside an image description (F27), F8, F22
+    gdocs = ["![[^a]](u)\n\n[^a]: x\n", "text\n\n[^a]: x[^b]\n\n[^b]: y\n", "x[^a]\n\n[^a]: one\n\n    [^b]: two\n"] + gdocs
     gopts = []
     for _ in gdocs:
         o = {"footnotes": True}
@@ -523,6 +541,8 @@ def main(tier):
             # (numbers distinct and in range, fewer references present than counted)
             known.add("ref_in_dropped_def")
             c.known_hit("ref_in_dropped_def", dict(case, spec=sp))
+        if ref_under_image(t):
+            known.add("ref_in_image_alt")
         html = unhx(ho.split()[1]).decode() if len(ho.split()) > 1 else ""
         skl = skeleton_parse(sk[2:])
         if skl:
